@@ -49,3 +49,13 @@ Proof.
   split; [exact wit_decodes|].
   split; [exact wit_reencodes_differently|exact wit_canonical_also].
 Qed.
+
+(* the witness miniscript is well formed and its key environment sorts by permutation:
+   the hypotheses of script_size_ok / lex_enc are satisfiable *)
+From Verif Require Import CodecSpec.
+Lemma wit_wf : ms_wf Tap wit_ke wit_ms /\ ksort_ok wit_ke.
+Proof.
+  split.
+  - cbn. unfold key_ok, nlen. cbn. repeat split; try lia; try reflexivity.
+  - intros ks. apply Permutation_refl.
+Qed.
